@@ -10,6 +10,7 @@ import (
 	"io"
 	"os"
 	"os/exec"
+	"path/filepath"
 	"regexp"
 	"sort"
 	"strings"
@@ -38,6 +39,9 @@ type Case struct {
 	// Paths: absolute prefixed paths of existing nodes, with the module whose root they are looked up from
 	Paths []PathQ `json:"paths,omitempty"`
 	Seed  uint32  `json:"seed"`
+	// FromDisk (pipelines): 0 = every text is handed over; 1 = imported modules are fetched from a directory of
+	// the pipeline's own on the search path; 2 = from a directory below a dir/... entry
+	FromDisk int `json:"from_disk,omitempty"`
 }
 
 type PathQ struct {
@@ -78,17 +82,62 @@ func dumpSet(ms *yang.Modules) string {
 	return b.String()
 }
 
-func pipeline(srcs []ymodel.Source) string {
+var importRE = regexp.MustCompile(`import\s+([A-Za-z0-9_.-]+)\s*\{`)
+
+// pipeline loads and processes one set. fromDisk 0: every text is handed over. 1: all texts are also written to a
+// fresh directory of the pipeline's own, which is put on the search path; the modules that another text imports
+// (and that carry no revision in their file name) are not handed over but fetched by Process. 2: the same with the
+// files one level further down and the directory given as dir/... .
+func pipeline(srcs []ymodel.Source, fromDisk int) string {
 	ms := yang.NewModules()
+	skip := map[string]bool{}
+	dir := ""
+	if fromDisk > 0 {
+		d, err := ev.MkdirTemp("verif-c19-")
+		if err != nil {
+			return "no scratch directory: " + err.Error()
+		}
+		dir = d
+		defer os.RemoveAll(dir)
+		where := dir
+		if fromDisk == 2 {
+			where = filepath.Join(dir, "sub", "deeper")
+			os.MkdirAll(where, 0o755)
+			ms.AddPath(filepath.Join(dir, "..."))
+		} else {
+			ms.AddPath(dir)
+		}
+		imported := map[string]bool{}
+		for _, s := range srcs {
+			for _, m := range importRE.FindAllStringSubmatch(s.Text, -1) {
+				imported[m[1]] = true
+			}
+		}
+		for _, s := range srcs {
+			os.WriteFile(filepath.Join(where, filepath.Base(s.Name)), []byte(s.Text), 0o644)
+			if n := strings.TrimSuffix(s.Name, ".yang"); imported[n] && strings.HasPrefix(strings.TrimSpace(s.Text), "module ") {
+				skip[s.Name] = true
+			}
+		}
+	}
+	clean := func(x string) string {
+		if dir != "" {
+			x = strings.ReplaceAll(x, dir, "<dir>")
+		}
+		return x
+	}
 	for _, s := range srcs {
+		if skip[s.Name] {
+			continue
+		}
 		if err := ms.Parse(s.Text, s.Name); err != nil {
-			return "parse error: " + err.Error()
+			return clean("parse error: " + err.Error())
 		}
 	}
 	if errs := ms.Process(); len(errs) > 0 {
-		return fmt.Sprintf("errors: %v", errs)
+		return clean(fmt.Sprintf("errors: %v", errs))
 	}
-	return dumpSet(ms)
+	return clean(dumpSet(ms))
 }
 
 // runPipelines: N goroutines, each the full pipeline on its own set.
@@ -104,7 +153,7 @@ func runPipelines(c Case) childResult {
 			go func(g int) {
 				defer wg.Done()
 				<-start
-				got[g] = pipeline(c.Sets[g%len(c.Sets)])
+				got[g] = pipeline(c.Sets[g%len(c.Sets)], c.FromDisk)
 			}(g)
 		}
 		close(start)
@@ -113,7 +162,7 @@ func runPipelines(c Case) childResult {
 		if round == 0 {
 			// sequential reference, after the concurrent round
 			for i, s := range c.Sets {
-				want[i] = pipeline(s)
+				want[i] = pipeline(s, c.FromDisk)
 			}
 		}
 		for g := range got {
@@ -387,6 +436,12 @@ func check(c Case) (o ev.Outcome) {
 	o.Key = string(b)
 	o.Sample = map[string]any{"mode": c.Mode, "goroutines": c.Goroutines, "rounds": c.Rounds, "sets": len(c.Sets), "sources_of_first_set": c.Sets[0], "paths": len(c.Paths)}
 	o.Class("mode/" + c.Mode)
+	switch c.FromDisk {
+	case 1:
+		o.Class("pipelines-fetch-imports-from-disk")
+	case 2:
+		o.Class("pipelines-fetch-imports-from-a-recursive-search-path-entry")
+	}
 	all := stdout.String() + stderr.String()
 	if sig := raceSignature(all); sig != "" {
 		i := strings.Index(all, "WARNING: DATA RACE")
@@ -514,6 +569,7 @@ func gen(t *rapid.T) Case {
 	if rapid.IntRange(0, 2).Draw(t, "mode") == 0 {
 		c.Mode = "pipelines"
 		c.Rounds = 3
+		c.FromDisk = rapid.SampledFrom([]int{0, 0, 1, 2}).Draw(t, "imports-fetched-from-disk")
 		n := rapid.IntRange(1, 3).Draw(t, "distinct-sets")
 		lexical := rapid.IntRange(0, 2).Draw(t, "lexical-errors") == 0
 		for i := 0; i < n; i++ {
